@@ -57,6 +57,15 @@ class SimHandle:
     def tell(self):
         return self.pos
 
+    def seekable(self):
+        return True
+
+    def readable(self):
+        return 'r' in self.mode
+
+    def writable(self):
+        return 'w' in self.mode or 'a' in self.mode
+
     def seek(self, pos, whence=0):
         if whence == 0:
             self.pos = pos
@@ -99,6 +108,13 @@ class SimHandle:
         return False
 
 
+class SizedHandle(SimHandle):
+    """A handle that also reports how much it holds (len() of an empty one is 0, so it is falsy while empty) -
+    legal for a sink: chunk collectors and bytearray-like writers behave this way."""
+    def __len__(self):
+        return len(self.disk.files.get(self.name, b''))
+
+
 class SimDisk:
     def __init__(self):
         self.files = {}
@@ -111,8 +127,8 @@ class SimDisk:
         self.handles.append(h)
         return h
 
-    def handle(self, name, mode='rb', fault=None):
-        h = SimHandle(self, name, mode, fault)
+    def handle(self, name, mode='rb', fault=None, sized=False):
+        h = (SizedHandle if sized else SimHandle)(self, name, mode, fault)
         self.handles.append(h)
         return h
 
